@@ -251,6 +251,59 @@ def ones(shape, rng=None):
 
 
 # --------------------------------------------------------------------------------------------------
+# operator-typed second operands
+# --------------------------------------------------------------------------------------------------
+OPERAND_CLASSES = ["Diag", "ConstantDiag", "Identity", "Dense", "Zero", "Triangular", "Toeplitz", "Root", "Kronecker", "KroneckerDiag"]
+
+
+def operand_operator(rc, batch, k, side):
+    """an operator of class `rc` whose inner dimension is k: shape (*batch, k, k) for the square classes,
+    (*batch, k, 2) [side=right] / (*batch, 2, k) [side=left] for Dense / Zero."""
+    import linear_operator.operators as O
+    b = tuple(batch)
+    rect = (k, 2) if side == "right" else (2, k)
+    if rc == "Diag":
+        return O.DiagLinearOperator(torch.full(b + (k,), 2.0, dtype=F64))
+    if rc == "ConstantDiag":
+        return O.ConstantDiagLinearOperator(torch.full(b + (1,), 2.0, dtype=F64), diag_shape=k)
+    if rc == "Identity":
+        return O.IdentityLinearOperator(k, batch_shape=torch.Size(b), dtype=F64)
+    if rc == "Dense":
+        return O.DenseLinearOperator(torch.ones(b + rect, dtype=F64))
+    if rc == "Zero":
+        return O.ZeroLinearOperator(*b, *rect, dtype=F64)
+    if rc == "Triangular":
+        return O.TriangularLinearOperator(torch.ones(b + (k, k), dtype=F64).tril())
+    if rc == "Toeplitz":
+        return O.ToeplitzLinearOperator(torch.ones(b + (k,), dtype=F64))
+    if rc == "Root":
+        return O.RootLinearOperator(torch.ones(b + (k, 1), dtype=F64))
+    a = 2 if (k % 2 == 0 and k > 2) else 1
+    if rc == "Kronecker":
+        return O.KroneckerProductLinearOperator(O.DenseLinearOperator(torch.ones(b + (a, a), dtype=F64)),
+                                                O.DenseLinearOperator(torch.ones(b + (k // a, k // a), dtype=F64)))
+    if rc == "KroneckerDiag":
+        return O.KroneckerProductDiagLinearOperator(O.DiagLinearOperator(torch.full(b + (a,), 2.0, dtype=F64)),
+                                                    O.DiagLinearOperator(torch.full(b + (k // a,), 2.0, dtype=F64)))
+    raise KeyError(rc)
+
+
+def operand_kinds(shape, side):
+    """(kind, batch, k) of operator operands for `op @ R` (side=right, k vs n) / `R @ op` (side=left, k vs m)."""
+    *B, m, n = shape
+    B = tuple(B)
+    k = n if side == "right" else m
+    res = [("ok", B, k), ("ok-nobatch", (), k), ("innerX-plus", B, k + 1)]
+    if k != 1:
+        res += [("inner1", B, 1), ("inner1-nobatch", (), 1)]
+    if B:
+        res += [("batchX-mismatch", (B[0] + 1,) + B[1:], k)]
+        if k != 1:
+            res += [("inner1-batchX", (B[0] + 1,) + B[1:], 1)]
+    return res
+
+
+# --------------------------------------------------------------------------------------------------
 # index cases
 # --------------------------------------------------------------------------------------------------
 def index_cases(shape):
@@ -270,18 +323,35 @@ def index_cases(shape):
             idx = [":"] * nd
             idx[pos] = v
             res.append((f"int/{pname}/{vname}", idx))
-        for vname, v in [("eq-size", size), ("lt-neg", -size - 1), ("ok-last", size - 1)]:
-            idx = [":"] * nd
-            idx[pos] = [0, v]
-            res.append((f"tensor1/{pname}/{vname}", idx))
-            idx = [[0, 0] for _ in range(nd)]
-            idx[pos] = [0, v]
-            res.append((f"tensorall/{pname}/{vname}", idx))
+        for dt in ("int64", "int32", "int16", "int8"):
+            for vname, v in [("eq-size", size), ("lt-neg", -size - 1), ("ok-last", size - 1)]:
+                if dt in ("int16", "int8") and vname.startswith("ok"):
+                    continue   # torch refuses int16/int8 index tensors altogether; only "must raise" cases are used
+                tag = "" if dt == "int64" else "@" + dt
+                idx = [":"] * nd
+                idx[pos] = {"t": [0, v], "dt": dt}
+                res.append((f"tensor1{tag}/{pname}/{vname}", idx))
+                idx = [{"t": [0, 0], "dt": dt} for _ in range(nd)]
+                idx[pos] = {"t": [0, v], "dt": dt}
+                res.append((f"tensorall{tag}/{pname}/{vname}", idx))
+                if nd > 2 and pos >= nd - 2:
+                    # row and column tensors only (batch sliced): the plain `_get_indices` path
+                    idx = [":"] * (nd - 2) + [{"t": [0, 0], "dt": dt}, {"t": [0, 0], "dt": dt}]
+                    idx[pos] = {"t": [0, v], "dt": dt}
+                    res.append((f"tensorrc{tag}/{pname}/{vname}", idx))
     return res
 
 
 def mk_index(idx):
-    return tuple(slice(None) if i == ":" else (torch.tensor(i) if isinstance(i, list) else i) for i in idx)
+    def one(i):
+        if i == ":":
+            return slice(None)
+        if isinstance(i, dict):
+            return torch.tensor(i["t"], dtype=getattr(torch, i["dt"]))
+        if isinstance(i, list):
+            return torch.tensor(i)
+        return i
+    return tuple(one(i) for i in idx)
 
 
 # --------------------------------------------------------------------------------------------------
@@ -308,7 +378,7 @@ class Runner:
         from linear_operator.operators import DenseLinearOperator
         shape = tuple(op.shape)
         sq = shape[-1] == shape[-2]
-        T = ones(T_shape) if T_shape is not None and opname not in ("expand",) else None
+        T = ones(T_shape) if T_shape is not None and opname not in ("expand",) and not opname.endswith("-by-op") else None
 
         def quad(R):
             if T.dim() > 1:
@@ -322,6 +392,16 @@ class Runner:
             f, g = (lambda: op @ T), (lambda: D @ T)
         elif opname == "matmul-Op":
             f, g = (lambda: op @ DenseLinearOperator(T)), (lambda: D @ T)
+        elif opname in ("matmul-by-op", "tmatmul-by-op", "rmatmul-by-op"):
+            rc, rb, rk = others
+            R = operand_operator(rc, rb, rk, "left" if opname == "rmatmul-by-op" else "right")
+            RD = R.to_dense().to(F64)
+            if opname == "matmul-by-op":
+                f, g = (lambda: op @ R), (lambda: D @ RD)
+            elif opname == "tmatmul-by-op":
+                f, g = (lambda: torch.matmul(op, R)), (lambda: torch.matmul(D, RD))
+            else:
+                f, g = (lambda: R @ op), (lambda: RD @ D)
         elif opname == "rmatmul":
             f, g = (lambda: T @ op), (lambda: T @ D)
         elif opname == "solve":
@@ -385,12 +465,16 @@ def model_line(cls_name, definers, opname, shape, T_shape, mro_def):
     a = shp(shape)
     if opname == "matmul":
         return f"mmdef {definers[cls_name]} {a} {shp(T_shape)}", "full"
-    if opname == "matmul-Op" and mro_def(cls_name, "matmul") == "LinearOperator":
-        return f"mm base {a} {shp(T_shape)}", "full"
+    if opname == "matmul-Op":
+        return f"mmdef {definers[cls_name]} {a} {shp(T_shape)}", "full"
+    if opname in ("matmul-by-op", "tmatmul-by-op"):
+        return f"mm base {a} {shp(T_shape)}", "guard"
+    if opname == "rmatmul-by-op":
+        return f"mm base {shp(T_shape)} {a}", "guard"
     if opname == "solve":
         d = mro_def(cls_name, "solve")
-        if d == "LinearOperator":
-            return f"solve {a} {shp(T_shape)}", "guard"
+        if d in ("LinearOperator", "LowRankRootAddedDiagLinearOperator", "KroneckerProductTriangularLinearOperator"):
+            return f"solve {a} {shp(T_shape)}", "full"
         if d == "DiagLinearOperator":
             return f"mm diagEw {a} {shp(T_shape)}", "full"
         if d == "IdentityLinearOperator":
@@ -410,18 +494,6 @@ def model_line(cls_name, definers, opname, shape, T_shape, mro_def):
             return f"denseexpand {a} {shp(T_shape)}", "full"
         return f"expandguard {a} {shp(T_shape)}", "guard"
     return None, None
-
-
-def alt_model_line(cls_name, definers, opname, shape, T_shape, mro_def):
-    """The guard as it is after notes/C19_fix_1..3.diff (Diag / Identity / Zero `matmul`, `solve` run the base
-    `_matmul_broadcast_shape` guard): accepted as an alternative to the bypassing model, so that the check is
-    green before and after the patches land (the buggy alternative is a property violation anyway)."""
-    a = shp(shape)
-    if opname == "matmul" and definers[cls_name] != "LinearOperator":
-        return f"mm base {a} {shp(T_shape)}"
-    if opname == "solve" and mro_def(cls_name, "solve") in ("DiagLinearOperator", "IdentityLinearOperator"):
-        return f"mm base {a} {shp(T_shape)}"
-    return None
 
 
 def spec_line(opname, shape, T_shape):
@@ -524,6 +596,14 @@ def gen_cases(chk, tier, collect=None):
                         dbgs = (True, False) if opname in ("matmul", "matmul-Op", "solve") else (True,)
                         for dbg in dbgs:
                             plan.append((opname, kind, ts, dbg, None, None))
+                for opname in ("matmul-by-op", "tmatmul-by-op", "rmatmul-by-op"):
+                    side = "left" if opname == "rmatmul-by-op" else "right"
+                    for kind, rb, rk in operand_kinds(shape, side):
+                        for rc in OPERAND_CLASSES:
+                            if opname == "tmatmul-by-op" and not kind.startswith(("inner1", "ok")):
+                                continue
+                            rshape = tuple(rb) + ((rk, rk) if rc not in ("Dense", "Zero") else ((rk, 2) if side == "right" else (2, rk)))
+                            plan.append((opname, f"{rc}:{kind}", rshape, True, None, (rc, list(rb), rk)))
                 for opname in EW_OPS:
                     for kind, ts in ew_kinds(shape):
                         if opname.endswith("-Op") and len(ts) < 2:
@@ -556,18 +636,21 @@ def gen_cases(chk, tier, collect=None):
                         chk.proof_break("harness", f"{cell}: {e!r}")
                         continue
                     ml, mode = (None, None)
-                    sl = al = None
+                    sl = None
                     if ts is not None:
                         ml, mode = model_line(cname, definers, opname, shape, ts, mro_def)
-                        al = alt_model_line(cname, definers, opname, shape, ts, mro_def) if ml else None
                         if opname == "add-T" and not dbg:
                             ml, mode = None, None   # the >= 2-D requirement is Dense._check_args, which only runs under debug
                         sl = spec_line(opname, shape, ts) if dbg else None
                     elif opname == "getitem" and kind.startswith("int/"):
                         pos = next(i for i, x in enumerate(idx) if x != ":")
                         sl = f"indexvalid {shape[pos]} {idx[pos]}"
-                        if dbg:
-                            ml, mode = f"range {shape[pos]} {idx[pos]}", "okerr"
+                        ml, mode = f"range {shape[pos]} {idx[pos]}", "okerr"
+                    elif opname == "getitem" and kind.startswith("tensor"):
+                        pname = kind.split("/")[1]
+                        pos = len(shape) - 2 + ["row", "col"].index(pname) if pname in ("row", "col") else int(pname[5:])
+                        if "@int16" not in kind and "@int8" not in kind:
+                            ml, mode = f"rangelist {shape[pos]} " + ",".join(str(x) for x in idx[pos]["t"]), "okerr"
                     elif opname == "cat":
                         dim, osh = others
                         pd = dim + len(shape)
@@ -576,7 +659,7 @@ def gen_cases(chk, tier, collect=None):
                             ml, mode = f"cat impl {pd} {shp(shape)} " + " ".join(shp(x) for x in osh), "guard"
                     recs.append({"cell": cell, "key": key, "cls": cname, "b": list(b), "n": n, "op": opname, "kind": kind, "shape": list(shape),
                                  "operand": list(ts) if ts is not None else None, "idx": idx, "others": others, "debug": dbg,
-                                 "impl": iv, "torch": tv, "model_line": ml, "mode": mode, "spec_line": sl, "alt_line": al})
+                                 "impl": iv, "torch": tv, "model_line": ml, "mode": mode, "spec_line": sl})
     return recs
 
 
@@ -585,11 +668,8 @@ def classify(chk, recs, outs, baseline, collect=None):
     li = 0
     for r in recs:
         mo = so = None
-        ao = None
         if r["model_line"]:
             mo = outs[li]; li += 1
-        if r.get("alt_line"):
-            ao = outs[li]; li += 1
         if r["spec_line"]:
             so = outs[li]; li += 1
         iv, tv = r["impl"], r["torch"]
@@ -638,8 +718,6 @@ def classify(chk, recs, outs, baseline, collect=None):
             elif r["mode"] == "guard":
                 if not m_ok and iv[0] == "ok":
                     agree = False
-            if not agree and ao is not None and r["mode"] == "full":
-                agree = (ao.startswith("ok") == (iv[0] == "ok")) and (iv[0] != "ok" or ao == fmt_verdict(iv))
             if not agree and iv[0] == "raise" and m_ok and _coarse(cell) in baseline:
                 agree = True   # the guard passed, the class's own code rejected (recorded at design time)
             if not agree:
@@ -673,8 +751,6 @@ def run(chk, collect=None):
     for r in recs:
         if r["model_line"]:
             lines.append(r["model_line"])
-        if r.get("alt_line"):
-            lines.append(r["alt_line"])
         if r["spec_line"]:
             lines.append(r["spec_line"])
     outs = chk.run_driver("C19", lines)
